@@ -943,3 +943,7 @@ func pathOnNilEdge(p *Path, c *ssa.Call) bool {
 	}
 	return false
 }
+
+func errorIface() *types.Interface {
+	return types.Universe.Lookup("error").Type().Underlying().(*types.Interface)
+}
